@@ -41,7 +41,7 @@ reg(Prop("C02", "rain and irrigation are fully partitioned at the surface",
     "ponding, bund-removal day, low-Ksat layers, back-up loop up to the surface; monitor: rows vs the weather record and the irrigation of the same step"))
 
 reg(Prop("C01", "daily soil-water balance closes",
-    [("drainage", 5000, 60000), ("infiltration", 5000, 60000), ("evap", 4000, 60000), ("gw", 5000, 60000), ("roots", 4000, 40000), ("transp", 4000, 60000), ("initstate", 400, 6000), ("day", 3000, 40000), ("dayc", 2500, 30000), ("runc", 48, 500)],
+    [("drainage", 5000, 60000), ("infiltration", 5000, 60000), ("evap", 4000, 60000), ("gw", 5000, 60000), ("roots", 4000, 40000), ("transp", 4000, 60000), ("initstate", 400, 6000), ("day", 3000, 40000), ("dayc", 2500, 30000), ("runc", 48, 500), ("initialise", 64, 800)],
     trace_mon("C01", 70, 1200),
     [R_AX, WATER_NOTE],
     [EXACT, "profiles with th_dry < th_wp < th_fc < th_s strictly, tau > 0, Ksat > 0 (wf_prof); water contents within [th_dry, th_s] on entry (C03 invariant)"],
@@ -84,7 +84,7 @@ reg(Prop("C06", "yields and seasonal totals agree with the daily tables",
     "every strategy incl. net + pre-irrigation + seasonal cap, crops that die early"))
 
 DAY_SUITE = [("day", 3000, 40000)]
-DAY_RUN_SUITE = [("day", 3000, 40000), ("runc", 40, 400)]
+DAY_RUN_SUITE = [("day", 3000, 40000), ("runc", 40, 400), ("calendar", 3000, 30000)]
 GEN_NOTE = ("the tables StateFields.v / StoreSites.v are REGENERATED from /repo's source text on every run by the fail-closed ast translator harness/gen_facts.py "
             "(alias rules: plain assignment, attribute, basic index, tuple unpacking, per-function return summaries; heap-mediated aliasing and callables held in variables are not tracked) — the translator is trusted")
 
@@ -194,7 +194,7 @@ reg(Prop("C12", "configured parameters and weather stay read-only while stepping
 
 
 reg(Prop("C11", "inputs are not consumed by a run",
-    [("inputs", 2500, 30000), ("calendar", 2500, 30000), ("soilinit", 800, 8000)],
+    [("inputs", 2500, 30000), ("calendar", 2500, 30000), ("soilinit", 800, 8000), ("initialise", 64, 800)],
     worker_mon("C11", monitors2.worker_C11, 40, 600, timeout=900, method=lambda r: r.choice([0, 1, 2, 3, 3, 4, 5]),
                # a quarter of the configurations: a fallow lead-in before the first planting date with a crop whose aeration /
                # minimum-rooting parameters differ from the filler crop's (the steps before planting write Aer and Zmin of the filler crop)
@@ -219,7 +219,7 @@ reg(Prop("C14", "no look-ahead: past outputs do not depend on future weather",
     replay=lambda d: _base.replay_worker(monitors2.worker_C14, d)))
 
 reg(Prop("C15", "weather is bound by date and by column name",
-    [("inputs", 6000, 40000)],
+    [("inputs", 6000, 40000), ("initialise", 64, 800)],
     worker_mon("C15", monitors2.worker_C15, 30, 400, timeout=900),
     ["all theorems 'Closed under the global context' and hold for every number type",
      "modelled: read_weather_inputs.py, the weather-matrix construction in core._initialize, the per-step lookup (Init/Inputs.v); pandas column selection / boolean row filtering are list functions tied by the inputs suite (all 120 column permutations, extra columns, 5 index kinds, leading/trailing rows)"],
@@ -249,7 +249,7 @@ def _c16_monitor(ctx):
 
 
 reg(Prop("C16", "every valid configuration runs to completion with finite outputs",
-    [("calendar", 4000, 40000), ("soilinit", 800, 8000), ("inputs", 1500, 20000), ("kernels", 3000, 30000), ("cropinit", 3000, 40000), ("clock", 100, 1000)],
+    [("calendar", 4000, 40000), ("soilinit", 800, 8000), ("inputs", 1500, 20000), ("kernels", 3000, 30000), ("cropinit", 3000, 40000), ("clock", 100, 1000), ("initialise", 64, 800)],
     _c16_monitor,
     [R_AX, "FloatAxioms.* (specification of Coq's primitive floats) enter through the interval tactic in the texture-box lemmas only",
      "PARTIAL: proved = catalogue obligations over the regenerated crop table, exact classification of initialisation rejections (Init/Calendar.v), termination of run loop and deepening, definedness of every process model under well-formedness; "
@@ -259,7 +259,7 @@ reg(Prop("C16", "every valid configuration runs to completion with finite output
     replay=lambda d: _base.replay_worker(monitors2.worker_C16, d)))
 
 reg(Prop("C18", "soil profile and initial water content are built as specified",
-    [("soilinit", 2500, 20000)],
+    [("soilinit", 2500, 20000), ("initialise", 64, 800)],
     worker_mon("C18", monitors2.worker_C18, 120, 1500, payload=lambda c, i: {"cfg": c, "prehistory": i % 4 == 3}, timeout=300, strict=lambda r: False),
     [R_AX, "FloatAxioms.* through the interval tactic (texture boxes)",
      "modelled: Soil (built-in ladder read through the real object, add_layer, add_layer_from_texture, fill_nan), deepening loop, create_soil_profile, initial water content (Init/SoilBuild.v); pandas ffill/map/groupby-mean (Kahan) are list functions tied by the suite; water-table overrides of the initial content are not modelled"],
